@@ -193,3 +193,15 @@ CASES += [
     m("stacked transformations walked from the bottom of the stack", "C04-B5", M,
       "                    ZZ = self.basis_transformations[sl-k]\n", "                    ZZ = self.basis_transformations[k]\n"),
 ]
+
+_DM9 = "quantarhei/qm/hilbertspace/dmoment.py"
+CASES += [
+    m("a component operator built on the accessor's view of the dipole data (seeded change of round 9)", "C04-B17", _DM9,
+      "data=self.data[:,:,n].copy())", "data=self.get_compoment_data(n))"),
+    m("a component operator built on a slice of the dipole data", "C04-B17", _DM9,
+      "data=self.data[:,:,n].copy())", "data=self.data[:,:,n])"),
+    t("a component operator built on a numpy.array copy of the slice", _DM9,
+      "data=self.data[:,:,n].copy())", "data=numpy.array(self.data[:,:,n]))"),
+    t("a component operator built on a copy of what the accessor returns", _DM9,
+      "data=self.data[:,:,n].copy())", "data=self.get_compoment_data(n).copy())"),
+]
